@@ -440,4 +440,185 @@ theorem restart_rinv (n : NewCfg) (ha : n.accepted = true) (hn : News n) {s : St
     exact h.ano c p q hs'
 
 
+/-! ### the machine with restarts and the observer's ledger -/
+
+/-- a restart is invisible on the wire: the acknowledgements in force stay in force -/
+def observeR (L : Ledger) : ROp → List Reply → Ledger
+  | .op o, rs => observe L o rs
+  | .restart _ _, _ => L
+
+/-- runs of the machine with restarts together with the observer's ledger -/
+def runR (n : NewCfg) : State → Ledger → List ROp → List (State × Ledger)
+  | s, L, [] => [(s, L)]
+  | s, L, op :: ops => (stepR n s op).flatMap (fun o => runR n o.1 (observeR L op o.2) ops)
+
+/-- messages carry a hardware address (see `C18.OpWF`); a restart is unconstrained -/
+def WFOp : ROp → Prop
+  | .op o => OpWF o
+  | .restart _ _ => True
+
+def KeysNE (t : Table) : Prop := ∀ e, e ∈ t → e.1 ≠ []
+
+theorem getLease_of_mem {t : Table} (hk : KeysUnique t) {c : Cid} {l : Lease} (hm : (c, l) ∈ t) : getLease t c = some l := by
+  unfold getLease
+  induction t with
+  | nil => simp at hm
+  | cons e es ih =>
+    unfold KeysUnique at hk
+    simp only [List.map_cons, List.nodup_cons] at hk
+    rcases List.mem_cons.1 hm with rfl | hm'
+    · simp [List.find?]
+    · have hne : (e.1 == c) = false := by
+        apply beq_false_of_ne
+        intro he
+        apply hk.1
+        rw [he]
+        exact List.mem_map.2 ⟨(c, l), hm', rfl⟩
+      simp only [List.find?, hne]
+      exact ih hk.2 hm'
+
+theorem rinv_stepR (n : NewCfg) (ha : n.accepted = true) (hn : News n) {s : State} (h : RInv (mkCfg n) s) (op : ROp)
+    (o : State × List Reply) (ho : o ∈ stepR n s op) : RInv (mkCfg n) o.1 := by
+  cases op with
+  | op p => exact rinv_step h p o ho
+  | restart capt hosts =>
+    simp only [stepR, List.mem_map] at ho
+    obtain ⟨s', hs', rfl⟩ := ho
+    exact restart_rinv n ha hn h capt hosts s' hs'
+
+theorem keysNE_stepR (n : NewCfg) (ha : n.accepted = true) (hn : News n) {s : State} (h : RInv (mkCfg n) s)
+    (hk : KeysNE s.table) (op : ROp) (hw : WFOp op) (o : State × List Reply) (ho : o ∈ stepR n s op) :
+    KeysNE o.1.table := by
+  cases op with
+  | op p => exact keys_step hk p hw o ho
+  | restart capt hosts =>
+    simp only [stepR, List.mem_map] at ho
+    obtain ⟨s', hs', rfl⟩ := ho
+    obtain ⟨s0, e, _, _, _, _, _, hm⟩ := restart_spec n ha hn s h.tinv capt hosts
+    rw [e, List.mem_singleton] at hs'
+    subst hs'
+    intro e' he'
+    cases e' with
+    | mk c l =>
+      obtain ⟨_, _, _, hc, _⟩ := (hm c l).1 he'
+      exact hc
+
+/-- the ledger stays backed by the lease table across a restart: every acknowledged lease is reloaded -/
+theorem sim_stepR (n : NewCfg) (ha : n.accepted = true) (hn : News n) {s : State} {L : Ledger} (h : RInv (mkCfg n) s)
+    (hk : KeysNE s.table) (hS : C11.Sim s L) (op : ROp) (o : State × List Reply) (ho : o ∈ stepR n s op) :
+    C11.Sim o.1 (observeR L op o.2) := by
+  cases op with
+  | op p => exact C11.sim_step h.tinv hS p o ho
+  | restart capt hosts =>
+    simp only [stepR, List.mem_map] at ho
+    obtain ⟨s', hs', rfl⟩ := ho
+    obtain ⟨s0, e, _, _, _, _, _, hm⟩ := restart_spec n ha hn s h.tinv capt hosts
+    rw [e, List.mem_singleton] at hs'
+    subst hs'
+    intro b hb
+    obtain ⟨l, hml, hst, hip, hex⟩ := hS b hb
+    exact ⟨_, (hm b.cid _).2 ⟨l, hml, hst, hk _ hml, rfl⟩, hst, hip, hex⟩
+
+/-- no OFFER and no ACK carries the address of an allocated lease of another client (table form of C11 (a') / (b)) -/
+theorem given_not_bound {cfg : Cfg} {s : State} (hI : TInv cfg s.table) (op : Op) (m : Msg) (hm : C11.msgOf op = some m)
+    (o : State × List Reply) (ho : o ∈ step cfg s op) (r : Reply) (hr : r ∈ o.2) (ht : r.typ ≠ .nak) :
+    ∀ k l, (k, l) ∈ s.table → l.state = .allocated → l.ip = some r.yiaddr → k = clientId m := by
+  intro k l hkl hst hip
+  apply Classical.byContradiction
+  intro hne
+  cases op with
+  | discover now m' =>
+    simp only [C11.msgOf, Option.some.injEq] at hm; subst hm
+    simp only [step, List.mem_singleton] at ho; subst ho
+    rcases discover_outcome cfg s now m' with ⟨cur, e⟩ | ⟨s1, ip, _, _, _, e, hav⟩ <;> rw [e] at hr
+    · simp at hr
+    · simp only [List.mem_singleton] at hr
+      subst hr
+      obtain ⟨_, _, _, e4⟩ := discLease_props s now m' _ rfl
+      have hu : inUse s.table (clientId m') (some ip) = false := by
+        rcases hav with hk | hav
+        · exact (e4 _ hk).1.1
+        · exact (available_usable hav).2.1
+      exact inUse_false hu hkl hne (by rw [hst]; simp) hip
+  | request now m' =>
+    simp only [C11.msgOf, Option.some.injEq] at hm; subst hm
+    simp only [step, List.mem_singleton] at ho; subst ho
+    rcases request_outcome cfg s now m' with e | ⟨l', rs, _, e, hn⟩ | ⟨hv, e⟩
+    · rw [e] at hr; simp at hr
+    · rw [e] at hr; exact ht (hn r hr)
+    · rw [e, ackLease_eq] at hr
+      simp only [List.mem_singleton] at hr
+      have hac := verdict_ack hv
+      have hipa := ackedLease_ip hac now
+      subst hr
+      have hy : (mkReply cfg m' RType.ack (ackedLease cfg now (findOrCreate s (clientId m') m'.chaddr))
+          (ackedLease cfg now (findOrCreate s (clientId m') m'.chaddr)).ip).yiaddr = reqIPOf m' := by
+        simp only [mkReply, hipa, Option.getD_some]
+      rw [hy] at hip
+      exact noClash_acked hI hac now rfl k l hkl hne hst (by rw [hipa]; exact hip)
+  | decline m' =>
+    simp only [step, List.mem_singleton] at ho; subst ho
+    rcases decline_outcome cfg s m' with e | e <;> rw [e] at hr <;> simp at hr
+  | release m' =>
+    simp only [step, List.mem_singleton] at ho; subst ho
+    simp [release] at hr
+  | minuteTick _ => simp [C11.msgOf] at hm
+  | capture _ => simp [C11.msgOf] at hm
+  | releaseCapture _ => simp [C11.msgOf] at hm
+  | hostSeen _ _ => simp [C11.msgOf] at hm
+  | hostGone _ => simp [C11.msgOf] at hm
+
+
+/-- a REQUEST without server identifier (renewing, rebinding, rebooting) that names the address of the allocated lease
+    the server finds for the client under the subnet selected now is acknowledged, provided the address lies in that
+    subnet, the session does not track it for another MAC and — renewing only — the lease time has not run out -/
+theorem nonselecting_acked {cfg : Cfg} {s : State} (now : Nat) (m : Msg) (l : Lease)
+    (hf : findOrCreate s (clientId m) m.chaddr = l) (hst : l.state = .allocated) (hip : l.ip = some (reqIPOf m))
+    (h0 : reqIPOf m ≠ 0) (hkind : reqKind m ≠ .selecting) (hexp : reqKind m = .renewing → ¬ l.expiry < now)
+    (hcont : (cfg.sub (selSub s m.chaddr)).contains (reqIPOf m) = true)
+    (hfree : takenByOther s m.chaddr (some (reqIPOf m)) = false) :
+    request cfg s now m = ackLease cfg s now m (clientId m) l := by
+  have hmac : l.mac = m.chaddr := by rw [← hf]; exact findOrCreate_mac _ _ _
+  have hv : verdict cfg s now m l = .ack := by
+    unfold verdict
+    simp only []
+    cases hk : reqKind m with
+    | selecting => exact absurd hk hkind
+    | renewing =>
+      have hb : renewBad s now m l = false := by
+        unfold renewBad
+        simp [hst, hip, hmac, hexp hk, hfree]
+      simp [hb]
+    | rebinding =>
+      have hb : rebootBad s (cfg.sub (selSub s m.chaddr)) m l = false := by
+        unfold rebootBad
+        simp [hst, hip, hmac, hcont, hfree]
+      simp [hst, hb]
+    | rebooting =>
+      have hb : rebootBad s (cfg.sub (selSub s m.chaddr)) m l = false := by
+        unfold rebootBad
+        simp [hst, hip, hmac, hcont, hfree]
+      simp [hst, hb]
+  unfold request
+  have h0' : (reqIPOf m == 0) = false := by simpa using h0
+  simp only [h0', Bool.false_eq_true, if_false, hf, hv]
+
+
+/-- decidable form of `WFOp` (for concrete histories) -/
+def wfOpB : ROp → Bool
+  | .op (.discover _ m) => !m.chaddr.isEmpty
+  | .op (.request _ m) => !m.chaddr.isEmpty
+  | .op (.decline m) => !m.chaddr.isEmpty
+  | .op (.release m) => !m.chaddr.isEmpty
+  | _ => true
+
+theorem wfOp_of_B {op : ROp} (h : wfOpB op = true) : WFOp op := by
+  have ne : ∀ (b : Bytes), (!b.isEmpty) = true → b ≠ [] := by
+    intro b hb e; rw [e] at hb; simp at hb
+  cases op with
+  | restart _ _ => trivial
+  | op p =>
+    cases p <;> simp only [WFOp, OpWF, C11.msgOf] <;> intro m hm <;> simp at hm
+    all_goals (subst hm; exact ne _ h)
+
 end PV.Lemmas.Dhcp4Restart
